@@ -511,11 +511,21 @@ void DNS::convert_records(const uint8_t* ptr,
     }
 }
 
-// no length checks, records should already be valid
-// Returns a pointer to the first byte after the domain name
+// Returns a pointer to the first byte after the domain name. The records come from
+// the wire so make sure we don't leave the buffer.
 uint8_t* DNS::update_dname(uint8_t* ptr, uint32_t threshold, uint32_t offset) {
-    while (*ptr != 0) {
+    const uint8_t* end = &records_data_[0] + records_data_.size();
+    while (true) {
+        if (TINS_UNLIKELY(ptr >= end)) {
+            throw malformed_packet();
+        }
+        if (*ptr == 0) {
+            break;
+        }
         if ((*ptr & 0xc0)) {
+            if (TINS_UNLIKELY(ptr + sizeof(uint16_t) > end)) {
+                throw malformed_packet();
+            }
             uint16_t index;
             memcpy(&index, ptr, sizeof(uint16_t));
             index = Endian::be_to_host(index) & 0x3fff;
@@ -537,15 +547,20 @@ uint8_t* DNS::update_dname(uint8_t* ptr, uint32_t threshold, uint32_t offset) {
 }
 
 // Updates offsets in domain names inside records.
-// No length checks, records are already valid.
 void DNS::update_records(uint32_t& section_start, 
                          uint32_t num_records, 
                          uint32_t threshold, 
                          uint32_t offset) {
     if (section_start < records_data_.size()) {
         uint8_t* ptr = &records_data_[section_start];
+        const uint8_t* end = &records_data_[0] + records_data_.size();
         for (uint32_t i = 0; i < num_records; ++i) {
             ptr = update_dname(ptr, threshold, offset);
+            // Type, class, ttl and data size
+            const uint32_t fields_size = sizeof(uint16_t) * 3 + sizeof(uint32_t);
+            if (TINS_UNLIKELY(static_cast<uint32_t>(end - ptr) < fields_size)) {
+                throw malformed_packet();
+            }
             uint16_t type;
             memcpy(&type, ptr, sizeof(uint16_t));
             type = Endian::be_to_host(type);
@@ -554,7 +569,13 @@ void DNS::update_records(uint32_t& section_start,
             memcpy(&size, ptr, sizeof(uint16_t));
             size = Endian::be_to_host(size);
             ptr += sizeof(uint16_t);
+            if (TINS_UNLIKELY(static_cast<uint32_t>(end - ptr) < size)) {
+                throw malformed_packet();
+            }
             if (type == MX) {
+                if (TINS_UNLIKELY(size < sizeof(uint16_t))) {
+                    throw malformed_packet();
+                }
                 ptr += sizeof(uint16_t);
                 size -= sizeof(uint16_t);
             }
